@@ -20,6 +20,9 @@ const BODY_OPS: &[&str] = &[
     // conditional SETs (a run of SETs may be replayed through a batched path) and multi-key commands whose keys
     // live on different shards - with 2 shards k is on shard 1 and k2 on shard 0 - (the replay must route them exactly like the standalone commands)
     "SET k c NX", "SET k d GET", "MSET k 1 k2 2 w 3", "MGET k k2 w", "DEL k k2",
+    // UNWATCH inside MULTI is an ordinary queued command (Redis queues it and answers OK at EXEC): it must not drop the
+    // watches before EXEC has compared them
+    "UNWATCH",
 ];
 const WATCH_TYPES: &[(&str, &[&str])] = &[
     ("missing", &[]),
@@ -598,7 +601,8 @@ fn main() {
             }
         }
         // (2) WATCH: key types x B's write x position, with small bodies
-        let watch_bodies: Vec<Vec<usize>> = if thorough { bodies(3, &[0, 2, 6, 10, 3]) } else { bodies(2, &[0, 2, 6, 10]) };
+        let unwatch = BODY_OPS.iter().position(|o| *o == "UNWATCH").unwrap();
+        let watch_bodies: Vec<Vec<usize>> = if thorough { bodies(3, &[0, 2, 6, 10, 3, unwatch]) } else { bodies(2, &[0, 2, 6, 10, unwatch]) };
         for wtype in 0..WATCH_TYPES.len() {
             for bwrite in 0..B_WRITES.len() {
                 for pos in 0..POSITIONS.len() {
